@@ -1,5 +1,5 @@
 SPECIFICATION Spec
-CONSTANTS Workers = {1, 2} MaxLog = 4 EagerCursor = TRUE
+CONSTANTS Workers = {1, 2} MaxLog = 3 EagerCursor = TRUE SmallPool = FALSE
 INVARIANT StateIsFold
 INVARIANT Converge
 INVARIANT FoldIsSound
